@@ -293,8 +293,10 @@ class Report:
         ev = dict(property_id=self.prop, tier=self.tier, seed=self.seed, level="proof", coverage=cov,
                   assumptions=self.assumptions, wall_s=round(time.time() - self.t0, 2),
                   violations=len(self.violations))
-        os.makedirs(os.path.join(VERIF, "evidence"), exist_ok=True)
-        with open(os.path.join(VERIF, "evidence", self.prop + ".json"), "w") as f:
+        # a development run without the Lean stage (--no-proof) must not overwrite the evidence of a full run
+        evdir = os.path.join(VERIF, "evidence") if proof else os.path.join(WORK, "evidence-no-proof")
+        os.makedirs(evdir, exist_ok=True)
+        with open(os.path.join(evdir, self.prop + ".json"), "w") as f:
             json.dump(ev, f, indent=1)
         for sig, what in self.known_hits:
             print(f"KNOWN-FINDING: property={self.prop} {what}")
